@@ -299,7 +299,13 @@ Definition exec_bop (w : bool) (o : bop) (b : bkt) : bkt * result :=
   | DeleteNested n =>
       if negb w then (b, RErr (Some ETxNotWritable))
       else match ent_get n l with
-           | None => (b, RErr (Some EBucketNotFound))
+           | None =>
+               (* bbolt compares the name with the key its search stopped at;
+                  in an empty bucket that key is nil, which equals the empty name *)
+               match n, l with
+               | [], [] => (b, RErr (Some EIncompatibleValue))
+               | _, _ => (b, RErr (Some EBucketNotFound))
+               end
            | Some (inl _) => (b, RErr (Some EIncompatibleValue))
            | Some (inr _) => (Bkt s (ent_del n l), RErr None)
            end
